@@ -35,7 +35,7 @@ def run(tier):
     W.self_check()
     shapes = shapes_for(tier)
     ftier = 'quick' if tier == 'quick' else 'thorough'
-    chunks = X.prepare(work, shapes, chunk=8)
+    chunks = X.prepare(work, shapes, chunk=8, also_O0=True)
     errors = [c['error'] for c in chunks if c['error']]
     tasks = []
     for c in chunks:
@@ -52,6 +52,19 @@ def run(tier):
                                       alloc_limit=2 * R_RATIO * Lb + 64, timeout=60 if tier == 'quick' else 300,
                                       desc=dict(shape=s.name, check='decode-total', endianness=e, input_length=Lb,
                                                 symbolic='all %d input bytes' % Lb, valid_length=Lb in valid)))
+            # the same query over the unoptimised IR (-O0): accesses the optimiser removed or merged at -O1 are all there
+            lens, valid = lengths_for(s, tier)
+            size = W.type_layout(s)[0]
+            if tier == 'quick':
+                pick = [max([v for v in valid if v <= 24] or [size])]
+                combos = [('be', l) for l in pick if l <= 24]
+            else:
+                combos = [(e, l) for e in ('le', 'be') for l in lens]
+            for e, Lb in combos:
+                tasks.append(dict(query='q_decode_total', oid='%s/dec-O0/%s/L%d' % (s.name, e, Lb), ll=c['ll0'], chunk=c['idx'], shape=s.name, family=ftier, e=e, L=Lb,
+                                  alloc_limit=2 * R_RATIO * Lb + 64, timeout=90 if tier == 'quick' else 400,
+                                  desc=dict(shape=s.name, check='decode-total', ir='-O0', endianness=e, input_length=Lb,
+                                            symbolic='all %d input bytes' % Lb, valid_length=Lb in valid)))
     pat = os.environ.get('VF_ONLY')
     if pat:
         tasks = [t for t in tasks if pat in t['oid']]
